@@ -105,3 +105,35 @@ impl FromSpecImpl<rodbus::Shutdown> for ffi::ParamError {
 impl From<rodbus::Shutdown> for ffi::ParamError {
 //@fn ffi/rodbus-ffi/src/helpers/conversions.rs | From<rodbus::Shutdown> for ffi::ParamError::from | tags=C18
 }
+
+// [C18,C09] TLS configuration enums and errors keep their names across the boundary
+impl FromSpecImpl<ffi::MinTlsVersion> for rodbus::client::MinTlsVersion {
+    open spec fn obeys_from_spec() -> bool { true }
+    open spec fn from_spec(from: ffi::MinTlsVersion) -> Self { match from { ffi::MinTlsVersion::V12 => rodbus::client::MinTlsVersion::V1_2, ffi::MinTlsVersion::V13 => rodbus::client::MinTlsVersion::V1_3 } }
+}
+impl From<ffi::MinTlsVersion> for rodbus::client::MinTlsVersion {
+//@fn ffi/rodbus-ffi/src/helpers/conversions.rs | From<ffi::MinTlsVersion> for rodbus::client::MinTlsVersion::from | tags=C09,C18
+}
+impl FromSpecImpl<ffi::CertificateMode> for rodbus::client::CertificateMode {
+    open spec fn obeys_from_spec() -> bool { true }
+    open spec fn from_spec(from: ffi::CertificateMode) -> Self { match from { ffi::CertificateMode::AuthorityBased => rodbus::client::CertificateMode::AuthorityBased, ffi::CertificateMode::SelfSigned => rodbus::client::CertificateMode::SelfSigned } }
+}
+impl From<ffi::CertificateMode> for rodbus::client::CertificateMode {
+//@fn ffi/rodbus-ffi/src/helpers/conversions.rs | From<ffi::CertificateMode> for rodbus::client::CertificateMode::from | tags=C09,C18
+}
+pub open spec fn spec_tls_error(error: rodbus::client::TlsError) -> ffi::ParamError {
+    match error {
+        rodbus::client::TlsError::InvalidDnsName => ffi::ParamError::InvalidDnsName,
+        rodbus::client::TlsError::InvalidPeerCertificate(_) => ffi::ParamError::InvalidPeerCertificate,
+        rodbus::client::TlsError::InvalidLocalCertificate(_) => ffi::ParamError::InvalidLocalCertificate,
+        rodbus::client::TlsError::InvalidPrivateKey(_) => ffi::ParamError::InvalidPrivateKey,
+        rodbus::client::TlsError::BadConfig(_) => ffi::ParamError::BadTlsConfig,
+    }
+}
+impl FromSpecImpl<rodbus::client::TlsError> for ffi::ParamError {
+    open spec fn obeys_from_spec() -> bool { true }
+    open spec fn from_spec(error: rodbus::client::TlsError) -> Self { spec_tls_error(error) }
+}
+impl From<rodbus::client::TlsError> for ffi::ParamError {
+//@fn ffi/rodbus-ffi/src/helpers/conversions.rs | From<rodbus::client::TlsError> for ffi::ParamError::from | tags=C18
+}
